@@ -17,6 +17,32 @@ def prove(*f):
     return zutil.check(*f) == z3.unsat
 
 
+def user_vars(f, ty_rx, init_rx=None):
+    """user variables (locals with a debug name) of a type, optionally with an initialising statement `_N = <init>`; by local number.
+    Used when the pinned source names are gone (a rename must not matter)."""
+    out = []
+    for place, name in f.debug.items():
+        if not re.match(r'^_\d+$', place) or not re.match(ty_rx, f.locals.get(place, '')):
+            continue
+        if init_rx and not any(re.match(r'^' + re.escape(place) + r' = ' + init_rx + r'$', l) for ls in f.blocks.values() for l in ls):
+            continue
+        out.append(place)
+    return sorted(out, key=lambda x: int(x[1:]))
+
+
+def anchors_unpack(f):
+    il = f.debug_of.get('index'); fl = f.debug_of.get('first'); hl = f.debug_of.get('h'); oul = f.debug_of.get('omega_u')
+    if not il:
+        c = user_vars(f, r'^u8$', r'const 0_u8'); il = c[0] if len(c) == 1 else None
+    if not fl and il:
+        c = [x for x in user_vars(f, r'^u8$', r'copy ' + re.escape(il)) if x != il]; fl = c[0] if len(c) == 1 else None      # `let first = index`
+    if not hl:
+        c = user_vars(f, r'^\[(types::)?R; K\]$'); hl = c[0] if len(c) == 1 else None
+    if not oul:
+        c = user_vars(f, r'^usize$'); oul = c[0] if c else None          # `let omega_u = usize::try_from(omega)...` is the first statement
+    return il, fl, hl, oul
+
+
 def run(funcs, results):
     tags = ['C08', 'C02', 'C05', 'C13']
     fn = 'hint_bit_unpack'
@@ -42,7 +68,7 @@ def run(funcs, results):
         kind['pad'] = [h for h in iter_heads if h != firsth[0]][0]
         kind['pos'] = other[0]
     # locals by debug name
-    il = f.debug_of.get('index'); fl = f.debug_of.get('first'); hl = f.debug_of.get('h'); oul = f.debug_of.get('omega_u')
+    il, fl, hl, oul = anchors_unpack(f)
     if not all([il, fl, hl, oul]):
         results.append({'name': 'hint_bit_unpack: locals index/first/h/omega_u', 'tags': tags, 'verdict': 'refused', 'detail': str(f.debug_of)}); return
     # prefix: state on first arrival at the outer head
@@ -224,6 +250,10 @@ def run_pack(funcs, results):
         results.append({'name': 'hint_bit_pack: two loops identified', 'tags': tags, 'verdict': 'refused', 'detail': str(heads)}); return
     outer = firsth[0].stop; inner = [h for h in heads if h != outer][0]
     il = f.debug_of.get('index'); oul = f.debug_of.get('omega_u')
+    if not oul:
+        c = user_vars(f, r'^usize$'); oul = c[0] if c else None
+    if not il:
+        c = user_vars(f, r'^usize$', r'const 0_usize'); il = c[0] if len(c) == 1 else None
     if not il or not oul:
         results.append({'name': 'hint_bit_pack: locals index / omega_u', 'tags': tags, 'verdict': 'refused', 'detail': str(f.debug_of)}); return
     st0 = dict(firsth[0].st)
